@@ -27,12 +27,11 @@ theorem refines (c : Cfg) (hc : Refine.CfgOK2 c) (h : Hyper) (ops : List Op)
 
 /-- the step count grows by exactly one per step and by nothing else -/
 theorem steps_increment (c : SCfg) (s : SSt) (op : Op) :
-    (Spec.exec c s op).steps = if (match op with | .step => true | _ => false) then s.steps + 1 else s.steps := by
-  sorry
+    (Spec.exec c s op).steps = if (match op with | .step => true | _ => false) then s.steps + 1 else s.steps :=
+  Spec.exec_steps c s op
 
 /-- micro-step counters are cleared by every step -/
-theorem ministeps_cleared (c : SCfg) (s : SSt) : (Spec.step c s).mini = List.replicate c.nLayers 0 := by
-  sorry
+theorem ministeps_cleared (c : SCfg) (s : SSt) : (Spec.step c s).mini = List.replicate c.nLayers 0 := rfl
 
 /-- **factors change only on multiples of the factor-update interval** (train pass and step) -/
 theorem factors_frozen_off_multiples (c : SCfg) (s : SSt) (hoff : s.steps % s.hyper.fus.val s.steps ≠ 0)
@@ -42,21 +41,20 @@ theorem factors_frozen_off_multiples (c : SCfg) (s : SSt) (hoff : s.steps % s.hy
     (getS (Spec.step c s) l).aFactor = (getS s l).aFactor ∧
     (getS (Spec.step c s) l).gFactor = (getS s l).gFactor ∧
     (Spec.fwdBwd c s true).defs = s.defs ∧ (Spec.step c s).defs = s.defs := by
-  sorry
+  have h1 := Spec.step_fac_off c s hoff l
+  rw [Spec.fwdBwd_off c s hoff]
+  exact ⟨rfl, rfl, congrArg Prod.fst h1.1, congrArg Prod.snd h1.1, rfl, h1.2⟩
 
 /-- eval-mode passes change nothing at all (reference machine and distributed machine) -/
 theorem eval_noop (c : SCfg) (s : SSt) (c' : Cfg) (s' : St) :
-    Spec.fwdBwd c s false = s ∧ Precond.fwdBwd c' s' false = s' := by
-  sorry
-
-/-- the second-order data of a layer, as the fields `precond` reads -/
-def soOf (x : SLayer) : List (Option V) := [x.qa, x.da, x.qg, x.dg, x.dgda, x.aInv, x.gInv]
+    Spec.fwdBwd c s false = s ∧ Precond.fwdBwd c' s' false = s' :=
+  ⟨rfl, rfl⟩
 
 /-- **second-order data is recomputed only on multiples of the inverse-update interval**: on any
     other step the stale data is kept … -/
 theorem so_frozen_off_multiples (c : SCfg) (s : SSt) (hoff : s.steps % s.hyper.ius.val s.steps ≠ 0)
-    (l : Nat) : soOf (getS (Spec.step c s) l) = soOf (getS s l) := by
-  sorry
+    (l : Nat) : soOf (getS (Spec.step c s) l) = soOf (getS s l) :=
+  Spec.step_so_off c s hoff l
 
 /-- … and on a multiple (always on step 0) every layer's data is recomputed from the factors as
     they are after this step's factor update, with the damping of this step -/
@@ -70,7 +68,9 @@ theorem refresh_on_multiples (c : SCfg) (s : SSt) (hon : s.steps % s.hyper.ius.v
       x.qa = some (.eigQ (x.aFactor.getD .zero)) ∧ x.qg = some (.eigQ (x.gFactor.getD .zero)) ∧
       (if c.prediv then x.dgda = some (.outerInv (.eigD (x.gFactor.getD .zero)) (.eigD (x.aFactor.getD .zero)) d)
        else x.da = some (.eigD (x.aFactor.getD .zero)) ∧ x.dg = some (.eigD (x.gFactor.getD .zero))) := by
-  sorry
+  have h := Spec.step_refreshed c s hon l hl hlen
+  unfold Spec.Refreshed at h
+  exact h
 
 theorem step_zero_refreshes (h : Hyper) : 0 % h.ius.val 0 = 0 := Nat.zero_mod _
 
@@ -82,14 +82,14 @@ theorem schedules_read_at_current_step (c : SCfg) (s : SSt) (h' : Hyper)
     (e5 : h'.kl.val s.steps = s.hyper.kl.val s.steps) (e6 : h'.lr.val s.steps = s.hyper.lr.val s.steps) :
     let a := Spec.step c s
     let b := Spec.step c { s with hyper := h' }
-    a.out = b.out ∧ a.layers = b.layers ∧ a.defs = b.defs ∧ a.steps = b.steps := by
-  sorry
+    a.out = b.out ∧ a.layers = b.layers ∧ a.defs = b.defs ∧ a.steps = b.steps :=
+  Spec.step_sched c s h' e1 e2 e3 e4 e5 e6
 
 /-- **damping baked in at refresh time**: for the inverse method and for pre-divided eigenvalues the
     preconditioned gradient does not depend on the damping of the current step (only on the data
     computed at the last refresh); for plain eigen it uses the damping of the current step -/
 theorem damping_baked_at_refresh (c : SCfg) (s : SSt) (l : Nat) (d d' : Rat)
-    (hm : c.method = .inverse ∨ c.prediv = true) : Spec.precond c s l d = Spec.precond c s l d' := by
-  sorry
+    (hm : c.method = .inverse ∨ c.prediv = true) : Spec.precond c s l d = Spec.precond c s l d' :=
+  Spec.precond_damping c s l d d' hm
 
 end KV.C05
